@@ -280,7 +280,16 @@ CHECKS = {
 TIE_NOTE = (" Source ties (tools/gens/*.py -> lean/Generated/*Spec.lean / *Src.lean, re-generated from the working tree on every run; "
             "a construct outside a generator's grammar is a broken tie, reported, never skipped): ")
 ADDENDA = {
-    "C01": {"text": "the glue of mode_gamma.py the statement rests on (which member of the returned triple is gamma / V dgamma/dV, signs) is restated from the translated pattern (c01_mode_glue_is_source)."},
+    "C01": {"text": "the glue of mode_gamma.py the statement rests on (which member of the returned triple is gamma / V dgamma/dV, signs) is restated from the translated pattern (c01_mode_glue_is_source); nonshear.py is now translated completely (tools/gens/nonshear_src.py: averaging as a reduction tree, Gamma clearing, weights, full prefactor expressions, Q, T = 0 masks by value, accessors, units, hierarchy; 23 functions, none pinned): c01_glue_is_source_* and the headline identities restated for the value assembled only from translated pieces (c01_longitudinal_source, c01_offdiagonal_source, c01_parts_source).",
+            "technique": "translator tie for the whole of nonshear.py (reduction tree / mask / prefactor evaluators = model)"},
+    "C03": {"text": "every def and lambda of shear.py is translated as data (tools/gens/shear_src.py): cells of fictitious_strain, eigh call sites, the strain_rotated pipeline (einsum diagonal write, product order, diagonal extraction), non-zero test and ordered-pair enumeration, key construction, skip test, which (strain, resolver, target) each energy/key method uses, resolver dicts, value properties, no post-processing of the result; c03_glue_is_source_* (fict for all 15 keys and symmetric; strainRotated = diag(T^T diag(s) T) for every T; loops = all ordered pairs of non-zero cells; three non-zero eigenvalues give all nine c'_aabb, each cross key twice; wiring; value unprocessed), inventory complete (18 defs); c03_exact restated on the translated pieces.",
+            "technique": "translator tie for the whole of shear.py (evaluators of the translated statements = model)"},
+    "C09": {"text": "fill.py and cli/fill.py translated (tools/gens/fill_src.py): keyword defaults, symbol order (comprehension evaluated), regexes, refusal tests and residual definition as trees, lookup precedence, equation rule applied to every packaged relations file part by part, stacking order, lstsq rcond, write-back key rule, drop rule, click option -> kwarg -> default, call sites; fill_model_is_source_* prove the model's symbols, refusals (for all parameters, residuals, ranks), residuals, lookup, equations, columns, defaults and CLI wiring are the meaning of that data.",
+            "technique": "translator tie for fill_cij and cij fill (expression-tree evaluators = model)"},
+    "C10": {"text": "cij/util/voigt.py is re-translated AS A WHOLE on every run into a PyLite module (deep embedding of the pure-Python subset, fuelled evaluator, CijModel/PyLite.lean); kernel evaluation proves translated source = hand model on the complete finite domain (2095 spellings) and on all views of the 21 keys (voigt_model_is_source*); every clause is restated about the translated source (voigt_source_*); rejection for all integers by symbolic kernel evaluation (partial for standard pairs with both indices < 0 or both >= 4); the PyLite evaluator is tested against CPython on the domain + a malformed stream every run (tested, not proved).",
+            "technique": "ast -> PyLite translator, decide +kernel / kernel_rfl on the translated AST, differential test PyLite vs CPython"},
+    "C18": {"text": "cli/static.py::main is translated into 17 guarded blocks of statements (tools/gens/static_src.py) with helpers fit_modulus / v2p1d, the six VRH formulas as expression trees, click names/types/choices/defaults and units.py helpers as pint expressions; static_model_is_source*: runWith = the interpretation of the translated blocks, block by block and as a whole, for every scalar type (hypothesis FillFrame on the filled frame); block order facts (table density -> fill -> --cellmass -> VRH -> units -> velocities -> sampling) read off the translated order; defaults and unit helpers as translated.",
+            "technique": "translator tie for run-static (interpreter of the translated blocks = model)"},
     "C02": {"text": "shear target formula and task identity/equality/store wiring restated from the translated shear.py / tasks.py (c02_shear_target_is_source, c02_tasks_are_source)."},
     "C04": {"text": "shear target, non-shear value bodies and full_modulus defaults restated from the translations of shear.py / nonshear.py / full_modulus.py (c04_*_is_source)."},
     "C05": {"text": "task identity, mode-gamma glue and the qha adapter (field tables, read_input, pressure guard) restated from the translations of tasks.py / mode_gamma.py / qha_adapter.py (c05_*_is_source)."},
